@@ -395,6 +395,7 @@ var errScript = errors.New("scripted read error")
 
 // read side: a sequence of frames.
 func caseRead(r *mon.Rec, idx int, gray bool) {
+	small := gray && idx%3 == 0
 	stream := "read"
 	if gray {
 		stream = "readgray"
@@ -432,6 +433,9 @@ func caseRead(r *mon.Rec, idx int, gray bool) {
 		if gray {
 			k = 14 + rng.IntN(5)
 		}
+		if small { // well-formed frames, read into buffers smaller than their payloads (see below)
+			k = rng.IntN(5)
+		}
 		var b []byte
 		if !gray && len(f.Payload) >= 2 && rng.IntN(6) == 0 {
 			// choose the first payload word so that the checksum computes to zero: RFC 768 has it transmitted as all ones
@@ -468,8 +472,11 @@ func caseRead(r *mon.Rec, idx int, gray bool) {
 			}
 		case 6: // total length longer than the frame
 			f.TotalLen = f.IHL*4 + 8 + len(f.Payload) + 1 + rng.IntN(30)
-		case 7: // IP payload shorter than a UDP header
+		case 7: // IP payload shorter than a UDP header; a total length of 0 (what segmentation offload leaves in captures)
 			f.TotalLen = f.IHL*4 + rng.IntN(8)
+			if rng.IntN(3) == 0 {
+				f.TotalLen = []int{0, 0, 1, 19, 20}[rng.IntN(5)]
+			}
 			f.Pad = 8
 		case 8: // not IPv4
 			f.Version = []int{0, 5, 6, 15}[rng.IntN(4)]
@@ -563,6 +570,11 @@ func caseRead(r *mon.Rec, idx int, gray bool) {
 		sizes := []int{1500, 1501, 2048, 1500, 4096, 1500, 65535, 3000}
 		so := rng.IntN(len(sizes))
 		vary := rng.IntN(3) == 0
+		if small {
+			// what happens to a datagram that does not fit the caller's buffer is not laid down (cut, or skipped); what is:
+			// the count returned fits the buffer, and what is returned is the beginning of a frame's payload, in order
+			sizes, vary = []int{1500, 300, 1472, 64, 1500, 548, 1, 0, 1460, 1488}, true
+		}
 		buf := make([]byte, 1500)
 		for k := 0; k < len(frames)+nfaults+2; k++ {
 			if vary {
@@ -576,6 +588,9 @@ func caseRead(r *mon.Rec, idx int, gray bool) {
 			if err != nil {
 				gots = append(gots, got{err: err})
 				return
+			}
+			if n > len(buf) {
+				panic(fmt.Sprintf("ReadFrom returned n=%d for a buffer of %d octets", n, len(buf)))
 			}
 			var d refframe.Datagram
 			d.Payload = append([]byte{}, buf[:n]...)
